@@ -106,7 +106,7 @@ def run_case(ctx, i, rng):
             pool = list(n.libraries) + [d_ for l in n.libraries for d_ in l.definitions]
             pool += [c for l in n.libraries for d_ in l.definitions for c in list(d_.children) + [x for x in d_.cables if len(x.wires) == 1 and x.is_scalar]]
             for k_, x_ in enumerate(rng.sample(pool, min(len(pool), rng.randint(3, 8)))):
-                ch = rng.choice(["%", "-", ".", "$", "#", "@", "!", "+", "=", ",", ":", "~", "^", "&", "|", " ", "%%", "-%"])
+                ch = rng.choice(["%", "-", ".", "$", "#", "@", "!", "+", "=", ",", ":", "~", "^", "&", "|", " ", "%%", "-%", "\t", "  "])
                 form = rng.randrange(4)
                 old_ = x_.name or "x"
                 nm_ = (old_ + ch + "t%d" % k_, "%d%s%s" % (rng.randrange(10), ch, old_), ch + old_ + "_%d" % k_, "%s%d%s" % (old_, k_, ch))[form]
